@@ -116,6 +116,17 @@ Section Paths.
   Definition typed_float (o : op) (l r : value) : outcome value :=
     drop_err o (float_val o (as_float l) r).
 
+  (* the instruction the bytecode compiler selects from the static type of the left operand
+     (compiler/bytecode_compiler.go emitBinaryOperation): the Int instruction for Int, the Float
+     instruction for Float - except `==`, for which it emits EQUAL_INT for a Float as well
+     (the unchanged code; pinned by compiler test TestBytecodeEqual/compile_runtime_float) *)
+  Definition typed (o : op) (l r : value) : outcome value :=
+    if is_int l then typed_int o l r
+    else match o with
+         | OCmp CEq => typed_int o l r
+         | _ => typed_float o l r
+         end.
+
   (* natives called by name. Int: "op" -> value.XInt(self, other) = XVal on self's
      representation; arithmetic "op@1" (other : Int) -> value.XInts. Float: "op" ->
      self.XVal(other); arithmetic "op@1" (other : Float), "op@2" (other : Int). *)
